@@ -65,6 +65,8 @@ type cliCase struct {
 	Gran    string
 	// the profile's own frame-dropping expressions (each may be absent, valid or not a regular expression)
 	Drop, Keep string
+	// Multi: 0 one source; 1 the profile given twice (merged); 2 also as -base; 3 also as -diff_base
+	Multi int
 }
 
 // pathValues: what people put into trim_path / source_path (lists, trailing separators, the root, a file name
@@ -82,6 +84,7 @@ func pathValues(p *gen.Prof) []string {
 func genCLI(t *rapid.T) *cliCase {
 	c := &cliCase{P: gen.Profile(t, hostOpts), Assigns: genAssigns(t, 4), Cmd: rapid.SampledFrom(commands).Draw(t, "cmd"),
 		Param: rapid.SampledFrom(hostileStrings).Draw(t, "param"), Gran: rapid.SampledFrom([]string{"functions", "filefunctions", "files", "lines", "addresses"}).Draw(t, "gran")}
+	c.Multi = rapid.SampledFrom([]int{0, 0, 0, 1, 2, 3}).Draw(t, "multi")
 	frameRx := []string{"", "", "", "main", ".*", "(", "zzz", "a|b"}
 	c.Drop, c.Keep = rapid.SampledFrom(frameRx).Draw(t, "dropframes"), rapid.SampledFrom(frameRx).Draw(t, "keepframes")
 	for i, a := range c.Assigns {
@@ -127,7 +130,17 @@ func checkCLI(c *cliCase, o *vk.Obs) []string {
 		fl[c.Cmd] = "true"
 	}
 	o.Label("cmd:" + c.Cmd)
-	res := pp.Run(pp.Req{Flags: fl, Args: []string{"src"}, Sources: map[string]*pp.Source{"src": {Prof: p}}})
+	req := pp.Req{Flags: fl, Args: []string{"src"}, Sources: map[string]*pp.Source{"src": {Prof: p}}}
+	switch c.Multi {
+	case 1:
+		req.Args = []string{"src", "src2"}
+		req.Sources["src2"] = &pp.Source{Prof: p.Copy()}
+	case 2, 3:
+		req.Sources["b"] = &pp.Source{Prof: p.Copy()}
+		req.Lists = map[string][]string{[]string{"base", "diff_base"}[c.Multi-2]: {"b"}}
+	}
+	o.Label(fmt.Sprintf("sources:%d", c.Multi))
+	res := pp.Run(req)
 	o.NonTrivial = len(c.Assigns) > 0
 	if res.Err != nil {
 		o.Label("answered:error")
